@@ -42,6 +42,7 @@ InitOK ==
        /\ o.ok = (Ev.exit = 0)
        /\ o.after = "same" => Ev.after = Ev.before /\ ~Ev.created
        /\ o.after = "created" => Ev.created /\ Ev.after # Ev.before /\ Ev.after # "absent"
+  /\ Ev.elsewhere = << >>            \* created exactly there: nothing else in the tree is created, changed or removed
 CInit ==
   /\ cur' = Ev.after
   /\ by' = IF Ev.created THEN Ev.pkg ELSE by
